@@ -1457,6 +1457,12 @@ func (fr *frame) inputVal(path string, t types.Type) Val {
 
 func (fr *frame) load(path string, t types.Type) Val {
 	in := fr.in
+	if strings.HasPrefix(path, "$zero") {
+		if isAggregate(t) {
+			return Val{K: KAgg, S: path, Agg: map[string]cell{}}
+		}
+		return zeroVal(t)
+	}
 	if b, ok := in.PathBind[path]; ok {
 		return b
 	}
